@@ -181,6 +181,20 @@ func (g *VGen) pool(t *ty.Ty, depth int) []*ty.Val {
 				// a walk ordered by the hashes of the keys leaves these two in map-iteration order
 				out = append(out, &ty.Val{K: ty.VMap, Elems: []*ty.Val{sv("Aa"), vs[len(vs)-1], sv("BB"), v1}})
 			}
+			if ku := g.Env.Under(u.Key); ku != nil && ku.K == ty.Basic && len(vs) > 2 {
+				// three keys whose pairwise differences wrap around into a cycle: an ordering of the keys by
+				// the sign of a - b is not transitive on them and depends on the order they arrive in
+				var cyc []*ty.Val
+				switch ku.B {
+				case "int", "int64":
+					cyc = []*ty.Val{iv(math.MinInt64), iv(-1), iv(1 << 62)}
+				case "uint", "uint64", "uintptr":
+					cyc = []*ty.Val{uv(1 << 62), uv(1 << 63), uv(math.MaxUint64)}
+				}
+				if cyc != nil {
+					out = append(out, &ty.Val{K: ty.VMap, Elems: []*ty.Val{cyc[0], v1, cyc[1], vs[1], cyc[2], vs[2]}})
+				}
+			}
 			out = append(out, &ty.Val{K: ty.VMap, Elems: []*ty.Val{k1, v1}})
 			if len(vs) > 1 {
 				out = append(out, &ty.Val{K: ty.VMap, Elems: []*ty.Val{k1, vs[1]}})
